@@ -42,6 +42,7 @@ type Rule struct {
 	State        []string // sorted set of connection states
 	Jump, Goto   string
 	LogLevel     int // -1 none
+	LogPrefix    string // --log-prefix of the LOG target, without quotes
 	SetMark      *MarkV
 	ToSource     string
 	ToDest       string
@@ -148,6 +149,9 @@ func (r *Rule) Canon() string {
 	}
 	if r.LogLevel >= 0 {
 		add("loglevel", itoa(r.LogLevel))
+	}
+	if r.LogPrefix != "" {
+		add("logprefix", r.LogPrefix)
 	}
 	if r.SetMark != nil {
 		add("mark", fmt.Sprintf("%#x/%#x", r.SetMark.Val, r.SetMark.Mask))
@@ -371,7 +375,7 @@ var optArgs = map[string]int{
 	"-p": 1, "--protocol": 1, "-m": 1, "--match": 1, "-j": 1, "--jump": 1, "-g": 1, "--goto": 1,
 	"--sport": 1, "--source-port": 1, "--dport": 1, "--destination-port": 1,
 	"--icmp-type": 1, "--syn": 0, "--tcp-flags": 2, "--state": 1,
-	"--log-level": 1, "--set-mark": 1, "--set-xmark": 1,
+	"--log-level": 1, "--log-prefix": 1, "--set-mark": 1, "--set-xmark": 1,
 	"--to-source": 1, "--to-destination": 1, "--reject-with": 1,
 }
 
@@ -692,6 +696,22 @@ func ParseRule(line string) (chain string, r *Rule, err error) {
 		}
 	} else if r.Jump == "LOG" {
 		r.LogLevel = 4 // default level of the LOG target: warning
+	}
+	if o, ok := opts["--log-prefix"]; ok {
+		if r.Jump != "LOG" {
+			return "", nil, unsup("--log-prefix without -j LOG")
+		}
+		// one word, quoted or not (a quoted text with blanks is split by
+		// Fields and refused above as unknown option or missing -j)
+		v := o.args[0]
+		if strings.HasPrefix(v, `"`) != strings.HasSuffix(v, `"`) || v == `"` {
+			return "", nil, unsup("log prefix %q", v)
+		}
+		v = strings.Trim(v, `"`)
+		if v == "" || strings.ContainsAny(v, `"\'`) {
+			return "", nil, unsup("log prefix %q", v)
+		}
+		r.LogPrefix = v
 	}
 	_, hasSM := opts["--set-mark"]
 	_, hasXM := opts["--set-xmark"]
